@@ -36,7 +36,7 @@ AMBIG = [False]
 def pd(case, a, b):
     """colvarproxy_system::position_distance(a, b): minimum image of b - a in the orthorhombic cell of the case"""
     d = vsub(b, a)
-    L = case.get("cell")
+    L = None if case.get("nopbc") else case.get("cell")      # forceNoPBC: plain differences although the engine has a cell
     if not L:
         return d
     out = []
@@ -270,6 +270,8 @@ def comp_block(comp, single):
                 L.append("    normalizeVector on")
     if comp.get("onesite"):
         L.append("    oneSiteTotalForce on")
+    if comp.get("nopbc"):
+        L.append("    forceNoPBC on")
     L.append("  }")
     return L
 
@@ -477,7 +479,7 @@ def comp_txt(comp):
 
 def model_line(case, isteps):
     p = ["RUN", str(case["n"])] + [hx(m) for m in case["masses"]]
-    p.append(("C " + vl([case["cell"]])) if case.get("cell") else "N")
+    p.append(("C " + vl([case["cell"]])) if (case.get("cell") and not case.get("nopbc")) else "N")
     p += [hx(BOLTZ * case["T"]), "1" if case["hide"] else "0", "1" if case["sub"] else "0", "1" if case["same"] else "0",
           "1" if case["inc"] else "0", str(len(case["comps"]))]
     for c in case["comps"]:
@@ -640,6 +642,11 @@ def gen_case(r, idx, typ=None, kinds=None):
     case["foreign"] = [nvar + 1, nvar + 2] if nforeign >= 2 else []
     if r.random() < 0.25:
         case["cell"] = [r.choice([4.0, 8.0, 16.0]) for _ in range(3)]
+        if r.random() < 0.3:          # forceNoPBC on every component: plain differences in a periodic engine
+            case["nopbc"] = True
+            for c in comps:
+                if "groups" in c:
+                    c["nopbc"] = True
     case["T"] = r.choice([0.0, 300.0, 300.0, 512.0])
     case["hide"] = r.random() < 0.35
     case["sub"] = r.random() < 0.35
@@ -1163,8 +1170,12 @@ def check(run):
     for rep in range(1 if quick else 12):                 # Jacobian derivative = divergence of the inverse gradient field
         for kind in KINDS:
             first.append(div_case(r, kind))
-        for kind in ("rmsd", "eigenvector"):
-            first.append(div_case(r, kind, rotate=True))
+        for kind, want in (("rmsd", "plain"), ("rmsd", "perm"), ("eigenvector", "raw"), ("eigenvector", "normalize")):
+            c = None
+            while c is None or {"plain": bool(c["comps"][0].get("perms")), "perm": not c["comps"][0].get("perms"),
+                                "raw": bool(c["comps"][0].get("evopt")), "normalize": not c["comps"][0].get("evopt")}[want]:
+                c = div_case(r, kind, rotate=True)
+            first.append(c)
     for i in range(24 if quick else 1200):          # rotated frames
         first.append(rot_case(r, "rmsd" if i % 2 == 0 else "eigenvector"))
     n = 300 if quick else 12000
